@@ -383,6 +383,16 @@ theorem wrapper_passthrough (r : SciRes X F G) :
     (wrapMinimize r).2.nit = r.nit ∧ (wrapMinimize r).2.nfev = r.nfev :=
   ⟨rfl, rfl, rfl, rfl, rfl, rfl, rfl⟩
 
+/-- **Fields SciPy does not report are `None`:** `info["grad"]` / `info["nit"]` are `None` exactly when
+    SciPy's result has no `jac` / `nit` (derivative-free methods); the wrapper is total — every SciPy
+    result is turned into a `(solution, info)` pair, the solution being SciPy's `x`. -/
+theorem wrapper_missing_fields_none (r : SciRes X F G) :
+    ((wrapMinimize r).2.grad = none ↔ r.jac = none) ∧ ((wrapMinimize r).2.nit = none ↔ r.nit = none) ∧
+    (wrapMinimize r).1 = r.x :=
+  ⟨Iff.rfl, Iff.rfl, rfl⟩
+
+example : (wrapMinimize (⟨1, 2, none, none, 40, true, "Optimization terminated successfully."⟩ : SciRes ℚ ℚ ℚ)).2.grad = none := rfl
+
 /-- **`maximize` is `minimize` on the negated function (and negated gradient).** -/
 theorem maximize_is_minimize_neg [Neg F] [Neg G]
     (scipy : (X → F) → Option (X → G) → X → SciRes X F G) (f : X → F) (g : Option (X → G)) (x0 : X) :
